@@ -130,6 +130,8 @@ def run(tier):
                 continue
             if ci in CROSS and cname not in ("mixed", "rand"):
                 continue
+            if ci in (6, 9) and len(data) > 320000:
+                continue          # tiny maxima make thousands of chunks of a large content: they get "rand" (300 KB) only
             segs = ["whole", 32768, 1, 7, 8191, 100, 4096] if len(data) <= 70000 else ["whole", 32768, 8191, 100003, 7 if ci == 0 else 4099]
             if tier == "quick":
                 segs = segs[:5] if len(data) <= 70000 else segs[:3] + segs[4:]
